@@ -5,6 +5,7 @@ from ..alg import Rat
 from ..loader import shape_error, anchor_error
 from ..sx import Walker, State
 from ..effects import Effects
+from .. import absint
 from ..util import body_nodocstring, names_stored, unparse
 
 MAP = 'tracklib.algo.mapping'
@@ -99,13 +100,23 @@ def rule_D(ctx):
         __radd__ = __add__
 
     class ObsS(orders.PyStub):
+        isa = ('Obs',)
+
         def __init__(self, position):
             self.position = position
+            self.timestamp = Tag('timestamp of', position)
 
     class TrackS(orders.PyStub):
+        isa = ('Track',)
+        # any other Track method the code calls is interpreted from the repository's own class, on these observations
+        repo_methods = absint.methods_of(ctx, 'tracklib.core.track.Track')
+        clsname = 'Track'
+        owners = absint.owners_of(ctx, 'tracklib.core.track.Track')
+
         def __init__(self, name, n):
             self.name = name
             self.obs = [ObsS(Tag('position', name, k)) for k in range(n)]
+            self._Track__POINTS = self.obs
             self.created = {}
 
         def __len__(self):
@@ -213,6 +224,7 @@ def rule_D(ctx):
     funcs = {pj.name: projector, dn.name: dist_to_node, 'HMM': mk_hmm, 'ceil': math.ceil, 'floor': math.floor, 'print': lambda *a_, **k_: None,
              '__globals__': glob, '__name__': name_of,
              '__resolve__': lambda call, fname: (name_of(fname) if isinstance(call.func, ast.Name) and ctx.prog.maybe_func(MAP + '.' + fname) is not None else None)}
+    TrackS.repo_funcs = funcs
     elems = ['e1', 'e2']
     rels = {'below': RADIUS - 1.0, 'equal': RADIUS, 'above': RADIUS + 1.0}
     # per observation: None / [] / one edge x 3 relations / two edges x 9 relations
@@ -251,6 +263,9 @@ def rule_D(ctx):
     runs_ = [(o0, o1, {}) for o0, o1 in pairs_]
     for sw in switch_names:
         runs_ += [(o0, o1, {sw: True}) for o0, o1 in pairs_[3:15]]
+    # a search radius of zero: nothing is nearer than the radius, every observation is flagged unmatched
+    zero_opts = [('one edge at distance 0 (radius 0)', ['e1'], {'e1': 'zero'}), ('two edges at distances 0 and 1 (radius 0)', ['e1', 'e2'], {'e1': 'zero', 'e2': 'one'})]
+    runs_ += [(zero_opts[0], zero_opts[1], {'__radius__': 0.0}), (zero_opts[1], options[1], {'__radius__': 0})]
     try:
         for o0, o1, switches in runs_:
             if bad is not None:
@@ -265,10 +280,13 @@ def rule_D(ctx):
                 for k, op in enumerate(opts):
                     answers[(tname, k)] = list(op[1]) if op[1] is not None else None
                     for e, rel in op[2].items():
-                        dist[((tname, k), e)] = rels[rel]
+                        dist[((tname, k), e)] = {'zero': 0.0, 'one': 1.0}.get(rel, rels.get(rel))
             net = Net(answers)
             del hmms[:]
             args = {gp[0]: [trs['T1'], trs['T2']], gp[1]: net, gp[2]: 7.0, gp[3]: 3.0, gp[4]: RADIUS}
+            switches = dict(switches)
+            if '__radius__' in switches:
+                args[gp[4]] = switches.pop('__radius__')
             args.update(switches)
             orders.make_func(g.node, funcs)(**args)
             n_cases += 1
@@ -293,7 +311,7 @@ def rule_D(ctx):
                         cand = (pr, e, Tag('distance to end', 0, g_, pr, sg), Tag('distance to end', 1, g_, pr, sg))
                         if rel == 'below':
                             must.add(cand)
-                        if rel == 'equal':
+                        if rel in ('equal', 'zero'):
                             may.add(cand)
                     got = lists[k]
                     gset = set(got)
